@@ -72,7 +72,14 @@ type timer struct {
 	desc  string
 }
 
+type sleepEntry struct {
+	g  *goroutine
+	op *pendingOp
+}
+
 type Sched struct {
+	sleep    []sleepEntry
+	pruned   bool
 	r        *Run
 	gs       []*goroutine
 	cur      *goroutine
@@ -309,28 +316,99 @@ func (s *Sched) peers(a, b *pendingOp) bool {
 	return false
 }
 
+// opObjs returns the synchronisation objects an operation touches (nil: unknown => dependent on all).
+func opObjs(op *pendingOp) []interface{} {
+	switch op.kind {
+	case opStart:
+		return []interface{}{} // a goroutine start touches no shared object
+	case opSelect:
+		var out []interface{}
+		for i := range op.cases {
+			if op.cases[i].ch != nil {
+				out = append(out, op.cases[i].ch)
+			}
+		}
+		return out
+	}
+	if op.obj == nil {
+		return nil
+	}
+	return []interface{}{op.obj}
+}
+
+func independent(a, b *pendingOp) bool {
+	oa, ob := opObjs(a), opObjs(b)
+	if oa == nil || ob == nil {
+		return false
+	}
+	for _, x := range oa {
+		for _, y := range ob {
+			if x == y {
+				return false
+			}
+		}
+	}
+	return true
+}
+
+func (s *Sched) asleep(g *goroutine) bool {
+	for _, e := range s.sleep {
+		if e.g == g && e.op == g.pending {
+			return true
+		}
+	}
+	return false
+}
+
 // pick selects the next goroutine to move (may fire timers); reports deadlock by ending the run.
+// Sleep sets (Godefroid) prune interleavings that only commute independent operations: after the
+// i-th candidate is chosen, candidates 0..i-1 sleep until a dependent operation is executed.
 func (s *Sched) pick() *goroutine {
 	for {
 		en := s.enabled()
 		nt := s.armedTimers()
-		n := len(en)
-		if nt > 0 {
-			n++
-		}
-		if n == 0 {
+		if len(en) == 0 && nt == 0 {
 			// idle waiters move only when nothing else can
 			for _, g := range s.gs {
 				if !g.done && g.pending != nil && g.pending.kind == opIdle {
+					s.sleep = nil
 					return g
 				}
 			}
 			s.deadlock()
 		}
-		c := s.r.choose('s', n)
-		if c < len(en) {
-			return en[c]
+		var cand []*goroutine
+		for _, g := range en {
+			if !s.asleep(g) {
+				cand = append(cand, g)
+			}
 		}
+		n := len(cand)
+		if nt > 0 {
+			n++
+		}
+		if n == 0 {
+			s.pruned = true
+			panic(runAbort{"pruned"})
+		}
+		c := s.r.choose('s', n)
+		if c < len(cand) {
+			chosen := cand[c]
+			var ns []sleepEntry
+			for _, e := range s.sleep {
+				if e.g != chosen && !e.g.done && e.g.pending == e.op && independent(e.op, chosen.pending) {
+					ns = append(ns, e)
+				}
+			}
+			for _, g := range cand[:c] {
+				if independent(g.pending, chosen.pending) {
+					ns = append(ns, sleepEntry{g, g.pending})
+				}
+			}
+			s.sleep = ns
+			return chosen
+		}
+		s.sleep = nil // an environment event is dependent on everything
 		s.fireEarliestTimer()
 	}
 }
